@@ -717,7 +717,8 @@ LIST_PARTS = [('tested',), ('views',), ('matrix',)]
 
 def budget(tier, prop=None):
     if tier == 'quick':
-        return {'runs': 400 if prop == 'C12' else 800, 'wall': 75, 'chunk': 4, 'selftest': 6, 'minimise_s': 60,
+        return {'runs': 400 if prop == 'C12' else 800, 'wall': 75, 'chunk': 4,
+                'selftest': 3 if prop == 'C12' else 6, 'minimise_s': 60,
                 'canary_runs': 600, 'canary_wall': 90}
     return {'runs': 30000, 'wall': 900, 'chunk': 16, 'selftest': 16, 'minimise_s': 180,
             'canary_runs': 600, 'canary_wall': 90}
